@@ -10,7 +10,7 @@ NOTES = ("Technique family: static analysis only. Every check re-extracts MIR fa
 STATUS = {
     "C03": dict(
         claimed=True,
-        technique="MIR census + provenance (single writer, record field origins, argument origins at every trade-writer call context of the side-specialised whole-operation views, write census of Order.vol) + interprocedural must-flow of every fill volume into the cumulative counter (directly or through returned accumulators) + reset-body rule",
+        technique="MIR census + provenance (single writer, record field origins, argument origins at every trade-writer call context of the side-specialised whole-operation views, write census of Order.vol) + interprocedural must-flow of every fill volume into the cumulative counter (directly or through returned accumulators) + reset-body rule + matching-loop rules (limits admit the trade price, current best price) + per-case modify rules (volume changes only as requested)",
         text=("Decides on every path of the code: the trade log has one append-only writer; each record's fields originate from "
               "clock/passive side+price/min volume/aggressor+passive ids; both volumes decrease by the logged amount; the counter is "
               "updated after every fill and reset only by reset_trade_vol; Order.vol has no writer outside the fill and modify_order. "
@@ -18,7 +18,7 @@ STATUS = {
         note=TRUST + "Assumes valid histories (volumes >= 1, traded volume < 2^32)."),
     "C04": dict(
         claimed=True,
-        technique="order-entity typestate (abstract interpretation with branch refinement, context-sensitive summaries; components: status, queue membership, side, pending volume, kind, end/arrival time stamped from the clock) run per side on whole-operation views of place/cancel/modify and judged on their exit states + write census + effect analysis of guard-failing CFG slices",
+        technique="order-entity typestate (abstract interpretation with branch refinement, context-sensitive summaries; components: status, queue membership, side, pending volume, kind, end/arrival time stamped from the clock) run per side on whole-operation views of place/cancel/modify and judged on their exit states + write census + effect analysis of guard-failing CFG slices + `Rejected` only under trading == false at placement",
         text=("Sound abstract interpretation of the status/priority-map membership of every order entity through place/cancel/modify/"
               "loader and their callees: every status write checked against the predecessor table in all calling contexts, API entry->exit "
               "relation within the documented machine, terminal orders never written. end_time := clock exactly for orders that become terminal in the call and arr_time := clock exactly for placed orders (exit-state rule, wherever in the call tree the stamp is written),  immutability of side/trader/id/start_vol, dense ids, and empty effect of the guard-failing slices (redundant requests)."),
@@ -43,7 +43,7 @@ STATUS = {
         note=TRUST + "Assumes valid histories (clock non-decreasing, prices strictly inside (0, 2^32-1))."),
     "C05": dict(
         claimed=True,
-        technique="provenance of the key's time component at every key write of the side-specialised whole-operation views + idiom check of the stamp method (returns max(clock, counter), counter := result+1, single writer) + loader origin check (loader helpers spliced in)",
+        technique="provenance of the key's time component at every key write of the side-specialised whole-operation views + idiom check of the stamp method (returns max(clock, counter), counter := result+1, single writer) + loader origin check (loader helpers spliced in) + C08's batch rules for over-full steps",
         text=("Decides the necessary structural condition for tie histories: the priority-map key is injective over queued orders and ordered by "
               "queueing sequence, because every queue time is a strictly increasing stamp that feeds exactly one key, the map key contains it, and the "
               "loader restores the counter above all stored queue times. Raw clock / order id are rejected as uniqueness sources. Behaviour of the other "
@@ -51,7 +51,7 @@ STATUS = {
         note=TRUST + "Assumes queue times stay below 2^64-1."),
     "C06": dict(
         claimed=True,
-        technique="finite case analysis over (status, Option shapes of new_price/new_vol, v < current volume, price on grid) with branch conditions evaluated per case on the whole-operation view of modify_order (what runs: side-index operations, field writes and their values per case) + effect summaries (priority map untouched in place) + typestate of the replacement path + key provenance + write census",
+        technique="finite case analysis over (status, Option shapes of new_price/new_vol, v < current volume, price on grid) with branch conditions evaluated per case on the whole-operation view of modify_order (what runs: side-index operations, field writes and their values per case) + effect summaries (priority map untouched in place) + typestate of the replacement path + key provenance + write census + must-pass re-match rule and matching-loop rules on the replacement path",
         text=("Decides on modify_order's CFG: in-place iff (None, Some(v)) with v strictly below the current volume, that path never writes a priority "
               "map and only the volume; (None, None) reaches no effectful call; the other dispatches pass exactly requested/kept price and volume to one "
               "replacement routine that removes, assigns, re-matches under the trading guard and re-queues iff not Filled under a fresh key; identity fields "
@@ -59,14 +59,14 @@ STATUS = {
         note=TRUST + "Assumes the order id exists and modify volumes >= 1."),
     "C12": dict(
         claimed=True,
-        technique="grid-alignment abstract domain over price provenance (remainder-guard dominance / per-case unreachability, interprocedural through call sites) + finite case analysis of create_order (off-grid: no effect and an error; on-grid and market: always stored) + effect analysis of forwarding layers",
+        technique="grid-alignment abstract domain over price provenance (remainder-guard dominance / per-case unreachability, interprocedural through call sites) + finite case analysis of create_order (off-grid: no effect and an error; on-grid and market: always stored) + effect analysis of forwarding layers + level-walk rule and constructor-stores-argument rule",
         text=("Decides that every value that can reach Order.price (field writes and constructor calls) is a market sentinel, an existing order price, or "
               "dominated by `v % tick_size == 0` on every feasible path from the public API; that the rejecting slices of create_order have no effect and "
               "return an error; and that Market/Env/MarketEnv creation paths perform their own effects only after the creation succeeded."),
         note=TRUST + "tick_size > 0 is asserted by the constructor."),
     "C13": dict(
         claimed=True,
-        technique="guard dominance on whole-operation views (every trade-writer call and every matching loop of every public entry is control-dependent on trading == true; the writer is called only inside matching loops), effect analysis of the `trading == false` branch slices of place_order per side and kind, must-pass-through (never crossed), writer census of the flag, fan-out shape rules",
+        technique="guard dominance on whole-operation views (every trade-writer call and every matching loop of every public entry is control-dependent on trading == true; the writer is called only inside matching loops), effect analysis of the `trading == false` branch slices of place_order per side and kind, must-pass-through (never crossed), writer census of the flag, fan-out shape rules + arrival rules (creation decides nothing; Rejected only under trading == false)",
         text=("Decides: no call chain from a public book entry reaches the trade writer without a call site controlled by trading == true; with the flag "
               "off market placement only marks Rejected + end_time; insertions do not depend on the flag; the flag has exactly two constant writers that "
               "write nothing else, no copy exists, and the Market/Env/MarketEnv toggles reach every book and the same-named toggle."),
@@ -82,7 +82,7 @@ STATUS = {
         note=TRUST + "serde_json rejects strict prefixes of an object document (trusted)."),
     "C08": dict(
         claimed=True,
-        technique="shape rules on the step CFG (take/replace-with-empty, single loop with enumerate index or verified position counter, dominance of clock writes over process_event, origin of the time expressions, benign emptiness guards), mutator census, reset-body rule, dispatch name-role agreement, sibling comparison Env/MarketEnv",
+        technique="shape rules on the step CFG (take/replace-with-empty, single loop with enumerate index or verified position counter, dominance of clock writes over process_event, origin of the time expressions, benign emptiness guards), mutator census, reset-body rule, dispatch name-role agreement, sibling comparison Env/MarketEnv + unconditional per-asset forwarding of place / cancel / modify by Market",
         text=("Decides: the queue is emptied by mem::take and exactly that batch is iterated once, every item gets `start + index` then one process_event, "
               "the clock ends at `start + step_size`, the volume reset precedes the loop, nothing else mutates the book; process_event dispatches all three "
               "instruction kinds with fields bound by name; submission functions queue exactly one same-named event. Replay equivalence with a plain book "
@@ -90,28 +90,28 @@ STATUS = {
         note=TRUST + "Batch sizes up to the step size."),
     "C10": dict(
         claimed=True,
-        technique="sound effect (mod) analysis with closure and cross-crate summaries; writer census of the cached snapshot; signature scan for mutable hand-outs",
+        technique="sound effect (mod) analysis with closure and cross-crate summaries; writer census of the cached snapshot; signature scan for mutable hand-outs + creation decides nothing about the order's outcome",
         text=("Proof-level for the effect clause: the computed may-write sets of the six submission functions are contained in {queue} (+ order-table "
               "append for place_order); unknown callees are over-approximated as writing everything below their &mut arguments and none remain. The "
               "cached snapshot has one assignment (end of step, from the live data) plus construction; no public API returns mutable access."),
         note=TRUST + "Soundness of the effect analysis rests on: no interior mutability (checked), no unsafe (none in the workspace), std semantics of push/take."),
     "C11": dict(
         claimed=True,
-        technique="side-qualifier / quantity agreement of push origins against the frozen (bid, ask) conventions read through symbolic loop items (index / zip / enumerate loops alike); coverage of every level and asset; writer census; getter origin checks; must-flow of fill volumes into the recorded counter (shared with C03)",
+        technique="side-qualifier / quantity agreement of push origins against the frozen (bid, ask) conventions read through symbolic loop items (index / zip / enumerate loops alike); coverage of every level and asset; writer census; getter origin checks; must-flow of fill volumes into the recorded counter (shared with C03) + trade-time and reset-every-step rules",
         text=("Decides alignment and faithfulness structurally: one push per series per step, each series fed from the same-side same-quantity field at the "
               "same level index, per-asset indexes agree, traded volume read from the counter after the loop, no other writers, getters return the series "
               "their names say."),
         note=TRUST),
     "C15": dict(
         claimed=True,
-        technique="resolved-callee and argument provenance of the shuffle call, dominance over the loop, deny list of reordering calls on the batch, Cargo.lock pin",
+        technique="resolved-callee and argument provenance of the shuffle call, dominance over the loop, deny list of reordering calls on the batch, Cargo.lock pin + nothing is decided at submission (creation rule)",
         text=("Decides the reduction to the trusted library (not the statistics): one unconditional rand SliceRandom::shuffle of the whole batch with the "
               "step's generator, nothing reorders or drops afterwards, no other randomness in step, rand 0.8.5 pinned. Uniformity of Fisher-Yates and "
               "generator quality are trusted; no frequencies are measured."),
         note=TRUST + "rand 0.8.5 shuffle is Fisher-Yates driven only by the passed generator."),
     "C09": dict(
         claimed=True,
-        technique="deny-list reachability on the resolved call graph + provenance of every generator argument (through reborrows and closure captures) + construction-site census + sibling comparison of the runner branches + Cargo.lock pins",
+        technique="deny-list reachability on the resolved call graph + provenance of every generator argument (through reborrows and closure captures) + construction-site census + sibling comparison of the runner branches + Cargo.lock pins (roots include agent / environment constructors; deny list includes once-initialised and shared mutable statics)",
         text=("Decides by effect analysis that nothing but the seeded generator can influence a run: no deny-listed nondeterminism source is reachable "
               "from any simulation root, every draw takes the enclosing function's own generator parameter, generators are built once from the seed "
               "parameter in the runners / PyO3 constructors only, both progress branches are identical. Sound over-approximation modulo the listed "
@@ -119,7 +119,7 @@ STATUS = {
         note=TRUST + "kdam (progress bar) is exempt: display only."),
     "C14": dict(
         claimed=True,
-        technique="forwarding conformance: index provenance (asset parameter / closure index), name-role agreement of forwarded arguments, same-named callee, effect summaries confined to order_books[asset], fan-out loop shape; the multi-asset step is held to the single-asset batch / snapshot / recording rule sets (C08, C10, C11 instantiated for MarketEnv)",
+        technique="forwarding conformance: index provenance (asset parameter / closure index), name-role agreement of forwarded arguments, same-named callee, effect summaries confined to order_books[asset], fan-out loop shape; the multi-asset step is held to the single-asset batch / snapshot / recording rule sets (C08, C10, C11 instantiated for MarketEnv) + C02's all-asset view rule and C08's submission rules for MarketEnv",
         text=("Decides that Market and MarketEnv are literal forwarders: each per-asset method reaches exactly order_books[its asset] with id order_id.1 and "
               "name-bound arguments, all-asset queries index only with the closure index and call the matching singular query, clock/toggles/reset reach "
               "every book, MarketEnv getters index with their asset parameter. Equality with stand-alone books then follows from the book-level properties."),
@@ -134,7 +134,7 @@ STATUS = {
         note=TRUST + "quote/syn/proc-macro2 semantics of push_* calls (trusted)."),
     "C16": dict(
         claimed=True,
-        technique="grid-alignment / sign abstract domains over price provenance on inlined helper views, sibling checks of the helper functions, element provenance through iterator chains / explicit loops and closure captures, per-slot model of the random agents (closure, helper and loop spellings), Bernoulli-comparison census, constructor origin checks, panic-site census with discharge table",
+        technique="grid-alignment / sign abstract domains over price provenance on inlined helper views, sibling checks of the helper functions, element provenance through iterator chains / explicit loops and closure captures, per-slot model of the random agents (closure, helper and loop spellings), Bernoulli-comparison census, constructor origin checks, panic-site census with discharge table + an activated slot always acts (must-pass)",
         text=("Decides for the built-in agents: every submitted limit price is on the agent's tick grid (including after the final clamp), buys quote "
               "at or below and sells at or above the observed mid, ids/volumes/ticks come from the agent's own configuration, cancellations only "
               "target own ids that passed the Active filter, random agents hold at most one live order per slot, every draw-vs-probability comparison "
@@ -143,7 +143,7 @@ STATUS = {
         note=TRUST + "Assumes agent tick = environment tick, non-empty ranges, finite distribution parameters."),
     "C17": dict(
         claimed=True,
-        technique="sign-domain abstract interpretation of the momentum update bodies with feasibility of guarded placement sites (only loop / draw / sign-of-M conditions admitted), origin checks of the recurrence, of the documented probability formula, of the first-step and constructor values, mirror/sibling checks",
+        technique="sign-domain abstract interpretation of the momentum update bodies with feasibility of guarded placement sites (only loop / draw / sign-of-M conditions admitted), origin checks of the recurrence, of the documented probability formula, of the first-step and constructor values, mirror/sibling checks (on views pruned by the sign of M) + recurrence applied on every step with a previous price",
         text=("Decides direction and symmetry structurally: for M > 0 exactly the buy sites are feasible, for M < 0 exactly the sell sites, for M = 0 none; "
               "the probability compared with the draw is non-negative and even in M; the stored recurrence is m(1-decay)+decay(P-p); buy/sell "
               "branches and single/multi-asset variants mirror each other. Sound sign abstraction under the stated positive-parameter assumptions; "
@@ -151,7 +151,7 @@ STATUS = {
         note=TRUST + "Assumes demand, scale, order_ratio, n > 0 and decay in (0, 1]."),
     "C18": dict(
         claimed=True,
-        technique="forwarding conformance of the PyO3 wrappers on their MIR: expected-callee table keyed by the public Python names, name-role and qualifier-token agreement (incl. (bid, ask) pair getters and constructors), whole-list rule for record getters, constant tables of the conversions, tuple-layout vs documentation, signature scan, StepEnv/StepEnvNumpy sibling comparison",
+        technique="forwarding conformance of the PyO3 wrappers on their MIR: expected-callee table keyed by the public Python names, name-role and qualifier-token agreement (incl. (bid, ask) pair getters and constructors), whole-list rule for record getters, constant tables of the conversions, tuple-layout vs documentation, signature scan, StepEnv/StepEnvNumpy sibling comparison + C07's snapshot rule set for the JSON clause",
         text=("Decides that the Python classes are literal forwarders: each wrapper calls exactly the expected core function with arguments bound by name, "
               "reads the side/quantity its name says, converts bool<->Side and Status->u8 as documented, lays records out as documented, takes only core "
               "integer types (so out-of-range ints are rejected by PyO3 before the body), maps OrderError to ValueError without own effects, seeds and uses "
@@ -159,7 +159,7 @@ STATUS = {
         note=TRUST + "PyO3 0.20 extraction semantics (OverflowError on out-of-range ints) are trusted."),
     "C19": dict(
         claimed=True,
-        technique="translation validation between documentation tables (Rust doc comments, Python docstrings parsed with ast/regex) and the element/key/column origins of the builders extracted from MIR through an abstract array/dictionary model (literal prefix + per-level block of one complete level loop; key templates evaluated with constant arguments)",
+        technique="translation validation between documentation tables (Rust doc comments, Python docstrings parsed with ast/regex) and the element/key/column origins of the builders extracted from MIR through an abstract array/dictionary model (literal prefix + per-level block of one complete level loop; key templates evaluated with constant arguments) + dictionary complete on every path + C11's reset rule for array element 0",
         text=("Static conformance check, exactly as the property names it: for all four array builders, both market-data dictionaries and both data-frame "
               "helpers the documented layout (index -> quantity, key -> series, column -> field) equals the layout the code builds, element by element, "
               "including lengths and the per-level loop. Array contents for concrete states are not computed."),
